@@ -448,6 +448,23 @@ func init() {
 				Run: func(c *fw.Case) {
 					acct := string(nonNulASCII(c.R, c.R.Range(0, 6)))
 					sec := string(nonNulASCII(c.R, c.R.Range(0, 20)))
+					if c.R.Bool() {
+						// secrets are any octets but NUL; in particular they may end in what a file or a form leaves there
+						b := nonNul(c.R, c.R.Range(1, 32))
+						b[len(b)-1] = byte(c.R.Pick('\n', '\r', ' ', '\t', 0x7f, 0xff, int(b[len(b)-1])))
+						if c.R.Chance(1, 4) && len(b) > 1 {
+							b[len(b)-2], b[len(b)-1] = '\r', '\n'
+						}
+						sec = string(b)
+					}
+					// the constructors read the wall clock in local time (as the documents prescribe) and cannot be given a
+					// clock: the calendar they see is moved instead, by a local zone whose offset is a number of days and
+					// hours — every month, single- and double-digit days, hours and minutes come up within a run
+					saved := time.Local
+					off := (int(c.Idx%13)*28*24 + c.R.Intn(24)) * 3600
+					off += c.R.Intn(3600)
+					time.Local = time.FixedZone("shifted", off)
+					defer func() { time.Local = saved }()
 					p := cmpp20.NewConnect(acct, sec, c.R.U32())
 					if want := refClientAuth(acct, sec, p.Timestamp, 9); p.AuthenticatorSource != string(want) {
 						c.Failf("constructor-formula/cmpp20.NewConnect", "NewConnect(%q, %q): authenticator %s, formula with the PDU's own timestamp %010d gives %s", acct, sec, hx([]byte(p.AuthenticatorSource)), p.Timestamp, hx(want))
@@ -457,7 +474,7 @@ func init() {
 						c.Failf("constructor-formula/smgp30.NewLogin", "NewLogin(%q, %q): authenticator %s, formula with the PDU's own timestamp %010d gives %s", acct, sec, hx([]byte(l.AuthenticatorClient)), l.Timestamp, hx(want))
 					}
 					c.Evals(2)
-					c.Cover(fmt.Sprintf("constructors/acct%d", len(acct)))
+					c.Cover(fmt.Sprintf("constructors/acct%d/month%02d", len(acct), p.Timestamp/100000000))
 				},
 			},
 		},
